@@ -8,6 +8,7 @@ import (
 	"os"
 	"runtime"
 	"runtime/debug"
+	"runtime/metrics"
 	"runtime/pprof"
 	"strconv"
 	"strings"
@@ -214,9 +215,25 @@ func heapWatchdog(prop string) {
 		// time), and only live data can take the heap beyond
 		debug.SetMemoryLimit(int64(limit) / 3 << 30)
 	}
+	adaptive := os.Getenv("GOMEMLIMIT") == ""
+	base := int64(limit) / 3 << 30
+	live := []metrics.Sample{{Name: "/gc/heap/live:bytes"}}
 	var ms runtime.MemStats
 	for {
 		time.Sleep(time.Second)
+		if adaptive {
+			// an analysis whose *live* data outgrows the soft limit must not be left to a collector that runs back to
+			// back (a run-away analysis then crawls for half an hour instead of failing in a minute): keep the limit
+			// at twice the live heap, so that only the hard budget below ends it
+			metrics.Read(live)
+			if live[0].Value.Kind() == metrics.KindUint64 {
+				want := base
+				if l := int64(live[0].Value.Uint64()) * 2; l > want {
+					want = l
+				}
+				debug.SetMemoryLimit(want)
+			}
+		}
 		runtime.ReadMemStats(&ms)
 		if ms.HeapAlloc > limit<<30 {
 			if f := os.Getenv("PCHECK_HEAPPROF"); f != "" {
